@@ -181,6 +181,16 @@ func TestCheck(t *testing.T) {
 			}
 		}
 	}
+	// A write below the captured position is refused and leaves the log as it was.
+	for _, ps := range []int{512, 4096} {
+		hb := prog.Op{Kind: "stray-wal", Mode: "held-body"}
+		for _, ops := range [][]prog.Op{
+			{wtx([]uint32{1, 2}, 0, 0, "commit"), hb, wtx([]uint32{3}, 0, 0, "commit")},
+			{wtx([]uint32{2}, 0, 0, "commit"), wtx([]uint32{1, 3}, 0, 0, "commit"), hb, {Kind: "recover"}, wtx([]uint32{2}, 0, 0, "commit")},
+		} {
+			cases = append(cases, prog.Case{PageSize: ps, Start: 3, StartWAL: true, Ops: ops})
+		}
+	}
 	// Other connections trying to get in while a transaction is being captured (see prog.Case.Intrude).
 	for _, ps := range []int{512, 4096} {
 		for _, pre := range [][]prog.Op{{}, {wtx([]uint32{1, 2}, 0, 0, "commit"), {Kind: "ckpt", Mode: "PASSIVE"}}, {wtx([]uint32{1, 2, 3}, 0, 1, "commit"), {Kind: "ckpt", Mode: "RESTART"}}} {
